@@ -17,21 +17,23 @@ Hypothesis ok_lookup : forall d f, dict_ok d -> do_lookup dops d f [] = [].
 Hypothesis ok_add : forall d k t f, dict_ok d -> length t <= length k -> dict_ok (fst (do_add dops d k t f)).
 Hypothesis ok_update : forall d k t f u tm, dict_ok d -> length t = length k -> k <> [] -> dict_ok (do_update dops d k t f u tm).
 Hypothesis ok_remove : forall d k t, dict_ok d -> dict_ok (do_remove dops d k t).
+(* the layout's table of alternative syllables does not depend on the keys typed so far *)
+Hypothesis alt_stable : forall x c, so_alt sops (so_clear sops x) c = so_alt sops x c.
 
 (* The cursor always lies between 0 and the buffer length (and the composition stays
    well-formed: |gaps| = |symbols|, selections non-empty, in range, pairwise disjoint) after
    EVERY history of key events and public operations, from every layout, dictionary and
    conversion oracle. *)
 Theorem C05_cursor_in_range_every_history : forall ops (e e' : editor D SY),
-  Inv dict_ok e -> run dops sops conv e ops = Ok e' ->
+  Inv dops sops dict_ok e -> run dops sops conv e ops = Ok e' ->
   cursor (com (sh e')) <= ce_len (com (sh e')) /\ wf_comp (inner (com (sh e'))).
 Proof.
   intros ops e e' I H.
-  pose proof (run_inv dops sops conv dict_ok ok_lookup ok_add ok_update ok_remove ops e e' I H) as [[[W C] _] _].
+  pose proof (run_inv dops sops conv dict_ok ok_lookup ok_add ok_update ok_remove alt_stable ops e e' I H) as [[[W C] _] _].
   split; assumption.
 Qed.
 
-Theorem C05_initial_state : forall d s0 ab ss t0, dict_ok d -> Inv dict_ok (init_editor (SY := SY) d s0 ab ss t0).
+Theorem C05_initial_state : forall d s0 ab ss t0, dict_ok d -> Inv dops sops dict_ok (init_editor (SY := SY) d s0 ab ss t0).
 Proof. intros. now apply init_inv. Qed.
 
 End C05.
